@@ -337,6 +337,22 @@ func GRPCDialPingShort(b *plugin.GRPCBroker, id uint32, timeout time.Duration) *
 		r.PingErr = err.Error()
 	}
 	r.Msg = msg
+	if err == nil {
+		// keep the connection busy with back-to-back calls well past its (short) connect budget: an established
+		// connection stays attached to its server for as long as it is used
+		t1 := time.Now()
+		for time.Since(t1) < 1200*time.Millisecond {
+			m2, err := PingConn(conn, 20*time.Second)
+			if err != nil {
+				r.PingErr = fmt.Sprintf("the established connection broke %d ms after its first answer, while in use: %v", time.Since(t1).Milliseconds(), err)
+				break
+			}
+			if m2 != msg {
+				r.PingErr = fmt.Sprintf("the established connection changed servers while in use: first answered by %q, then by %q", msg, m2)
+				break
+			}
+		}
+	}
 	return r
 }
 
